@@ -148,14 +148,6 @@ Definition pp_unpack_f (fuel : nat) (file : list Z) : option (list Z) :=
   | Some (_, b) => pp_loop fuel eff b [] unplen
   end.
 
-Lemma pp_unpack_f_self file : pp_unpack_f (length (snd (match rdbits (nth 3 (skipn (length file - 4) file) 0)
-                                                                     (read_order (firstn (length file - 11) (skipn 7 file)))
-                                                         with Some p => p | None => (0, []) end)) + 1) file = pp_unpack file.
-Proof.
-  unfold pp_unpack_f, pp_unpack. cbv zeta.
-  destruct (rdbits (nth 3 (skipn (length file - 4) file) 0) (read_order (firstn (length file - 11) (skipn 7 file)))) as [[v b]|]; reflexivity.
-Qed.
-
 Lemma read_order_length src : length (read_order src) = (8 * length src)%nat.
 Proof.
   unfold read_order. rewrite frev_rev. rewrite <- (rev_length src).
